@@ -113,6 +113,12 @@ func vcyc(value, n int) int {
 //@   ensures result == nil && desc.System == CounterStyleSystem{} ==> len(desc.Symbols) >= 1
 //@   ensures result == nil && desc.System.Extends == "" && (desc.System.System == "alphabetic" || desc.System.System == "numeric") ==> len(desc.Symbols) >= 2
 //@   ensures result == nil && desc.System.Extends == "" && desc.System.System == "additive" ==> len(desc.AdditiveSymbols) >= 2
+// ... and nothing more than the minima is demanded (a rule that fails validation is dropped as a whole): one symbol
+// is enough for cyclic, fixed and symbolic styles (symbolic is also the system of a rule without `system`), two for
+// alphabetic and numeric ones, and a style that extends another needs none
+//@   ensures[one-symbol-is-enough] (desc.System == CounterStyleSystem{} || (desc.System.Extends == "" && (desc.System.System == "cyclic" || desc.System.System == "fixed" || desc.System.System == "symbolic"))) && len(desc.Symbols) >= 1 ==> result == nil
+//@   ensures[two-symbols-are-enough] desc.System.Extends == "" && (desc.System.System == "alphabetic" || desc.System.System == "numeric") && len(desc.Symbols) >= 2 ==> result == nil
+//@   ensures[extending-styles] desc.System.Extends != "" ==> result == nil
 
 //@ func (*CounterStyleDescriptors).fallback
 //@   props C19
